@@ -100,14 +100,22 @@ theorem nr_step (s s' : LS) (e : Ev) (h : NR s) (hs : s.step e = some s') : NR s
           exact nr_upd _ h _ _ (by intro h1; exact absurd h1 (by simpa using hno))
         · rename_i t _
           cases hs
-          have h1 : NRf (upd s.req t { s.req t with flushq := f :: (s.req t).flushq }) :=
-            nr_upd _ h _ _ (by intro h2; exact h t h2)
-          refine nr_upd _ h1 _ _ ?_
-          intro h2
+          have h1 : NRf (upd s.req f { s.req f with flushreq := (s.req t).flushreq }) :=
+            nr_upd _ h _ _ (by intro h2; exact h f h2)
+          have h2 : NRf (upd (upd s.req f { s.req f with flushreq := (s.req t).flushreq }) t
+              { upd s.req f { s.req f with flushreq := (s.req t).flushreq } t with flushreq := some f }) :=
+            nr_upd _ h1 _ _ (by intro h3; exact h1 t h3)
+          refine nr_upd _ h2 _ _ ?_
+          intro h3
           exfalso
-          by_cases hft : f = t
-          · subst hft; simp at h2; exact hno h2
-          · rw [upd_other _ _ _ _ hft] at h2; exact hno h2
+          have e : ∀ (g : Nat → Req), (g f).noRun = (s.req f).noRun →
+              (upd g t { g t with flushreq := some f } f).noRun = (s.req f).noRun := by
+            intro g hgf
+            by_cases hft : f = t
+            · subst hft; simp [hgf]
+            · rw [upd_other _ _ _ _ hft]; exact hgf
+          have := e (upd s.req f { s.req f with flushreq := (s.req t).flushreq }) (by simp)
+          exact hno (this ▸ h3)
     · cases hs
   | flushMark f =>
     simp only [LS.step] at hs
@@ -218,7 +226,9 @@ theorem nr_step (s s' : LS) (e : Ev) (h : NR s) (hs : s.step e = some s') : NR s
     simp only [LS.step] at hs
     split at hs
     · split at hs
-      · split at hs <;> cases hs <;> exact h
+      · split at hs
+        · cases hs; exact h
+        · split at hs <;> cases hs <;> exact h
       · cases hs
     · cases hs
   | send =>
